@@ -21,6 +21,7 @@ import (
 	"sort"
 	"strconv"
 	"sync"
+	"sync/atomic"
 	"testing"
 	"time"
 
@@ -54,16 +55,81 @@ type verifC17Clock struct {
 	tickC   chan time.Time // unbuffered: handed to the handler as its ticker channel
 	periods []time.Duration
 	other   []string // any other use of the clock by the handler (none expected)
+	// history harness: time and the ticker come from the library's mock clock, so that Reset / Stop of the ticker by the handler
+	// behave as on the real clock; every tick the mock produces is observed by [forward] and handed to the handler through tickC
+	mock      *clock.Mock
+	orig      <-chan time.Time
+	got, done int64
+	ticks     []time.Time // ticks taken by the handler, in order
+	tickStall bool
+	stop      chan struct{}
+}
+
+func (c *verifC17Clock) forward() {
+	for {
+		select {
+		case <-c.stop:
+			return
+		case t := <-c.orig:
+			atomic.AddInt64(&c.got, 1)
+			select {
+			case c.tickC <- t:
+				c.mu.Lock()
+				c.ticks = append(c.ticks, t)
+				c.mu.Unlock()
+			case <-time.After(verifC17Deadline):
+				c.mu.Lock()
+				c.tickStall = true
+				c.mu.Unlock()
+			case <-c.stop:
+				return
+			}
+			atomic.AddInt64(&c.done, 1)
+		}
+	}
+}
+
+// every tick the mock has produced so far has been handed to the handler (or given up on)
+func (c *verifC17Clock) settle() {
+	quiet := 0
+	for i := 0; i < 200000 && quiet < 3; i++ {
+		if len(c.orig) == 0 && atomic.LoadInt64(&c.got) == atomic.LoadInt64(&c.done) {
+			quiet++
+		} else {
+			quiet = 0
+		}
+		time.Sleep(100 * time.Microsecond)
+	}
 }
 
 func (c *verifC17Clock) set(t time.Time) { c.mu.Lock(); c.now = t; c.mu.Unlock() }
 func (c *verifC17Clock) note(s string)   { c.mu.Lock(); c.other = append(c.other, s); c.mu.Unlock() }
-func (c *verifC17Clock) Now() time.Time  { c.mu.Lock(); defer c.mu.Unlock(); return c.now }
+func (c *verifC17Clock) Now() time.Time {
+	if c.mock != nil {
+		return c.mock.Now()
+	}
+	c.mu.Lock()
+	defer c.mu.Unlock()
+	return c.now
+}
 func (c *verifC17Clock) Ticker(d time.Duration) *clock.Ticker {
 	c.mu.Lock()
 	c.periods = append(c.periods, d)
+	first := len(c.periods) == 1
 	c.mu.Unlock()
-	return &clock.Ticker{C: c.tickC}
+	if c.mock != nil {
+		tk := c.mock.Ticker(d)
+		if first {
+			c.orig = tk.C
+			tk.C = c.tickC
+			go c.forward()
+		}
+		return tk
+	}
+	// a ticker of a mock clock that never advances (Reset / Stop are safe on it), with the driven channel in place of its own
+	tk := clock.NewMock().Ticker(d)
+	tk.C = c.tickC
+	return tk
 }
 func (c *verifC17Clock) Since(t time.Time) time.Duration { return c.Now().Sub(t) }
 func (c *verifC17Clock) Until(t time.Time) time.Duration { return t.Sub(c.Now()) }
@@ -189,6 +255,28 @@ type verifC17Step struct {
 	tx    int
 	secs  int64
 	qi    int
+	txb   []byte // request: these bytes instead of txs[tx]
+}
+
+// forwards of OTHER transactions every 5 min must not keep an old entry alive: A at 0, others at 5, 10, 15, 20 min, A again at 21 min and at 32 min
+func verifC17SteadyTraffic() []verifC17Step {
+	st := []verifC17Step{{kind: 0, chain: 2, tx: 0}, {kind: 2, qi: 0}}
+	for i := 0; i < 4; i++ {
+		st = append(st, verifC17Step{kind: 1, secs: 300}, verifC17Step{kind: 0, chain: 2, txb: []byte{0x51, byte(i)}}, verifC17Step{kind: 2, qi: 0})
+	}
+	st = append(st, verifC17Step{kind: 1, secs: 60}, verifC17Step{kind: 0, chain: 2, tx: 0}, verifC17Step{kind: 2, qi: 0},
+		verifC17Step{kind: 1, secs: 660}, verifC17Step{kind: 0, chain: 2, tx: 0}, verifC17Step{kind: 2, qi: 0})
+	return st
+}
+
+// many distinct transactions forwarded within one window must not make the dispatcher forget an earlier forward
+func verifC17ManyDistinct(n int) []verifC17Step {
+	st := []verifC17Step{{kind: 0, chain: 2, tx: 0}, {kind: 2, qi: 0}, {kind: 1, secs: 60}}
+	for i := 0; i < n; i++ {
+		st = append(st, verifC17Step{kind: 0, chain: 255, txb: []byte{0x77, byte(i >> 8), byte(i)}}, verifC17Step{kind: 2, qi: 2})
+	}
+	st = append(st, verifC17Step{kind: 1, secs: 60}, verifC17Step{kind: 0, chain: 2, tx: 0}, verifC17Step{kind: 1, secs: 1200}, verifC17Step{kind: 0, chain: 2, tx: 0})
+	return st
 }
 
 // directed histories (watcher chains 2, 4, 255, 10 with capacities 3, 1, 2, 0): the boundaries of the statement
@@ -239,7 +327,9 @@ func verifC17History(r *verifC17Rng, idx int, script []verifC17Step) *verifC17Ro
 	}
 	txs := [][]byte{{0xe5, 0x9c, 0x1b, 0xe5, 0x0b, 0xe7, 0xe4, 0x7e}, {0xe5, 0x9c}, {}, {0x6e, 0xf0, 0xa6, 0xba, 0x47, 0x3d, 0x34, 0x51}}
 	core, logs := observer.New(zap.InfoLevel)
-	clk := &verifC17Clock{now: verifC17Base, tickC: make(chan time.Time)}
+	clk := &verifC17Clock{now: verifC17Base, tickC: make(chan time.Time), mock: clock.NewMock(), stop: make(chan struct{})}
+	clk.mock.Set(verifC17Base)
+	defer close(clk.stop)
 	h := &verifC17Run{clk: clk, reqC: make(chan *gossipv1.ObservationRequest), queues: queues, logs: logs}
 	ctx, cancel := context.WithCancel(context.Background())
 	defer cancel()
@@ -306,6 +396,9 @@ func verifC17History(r *verifC17Rng, idx int, script []verifC17Step) *verifC17Ro
 		case 0: // a request
 			chain := stp.chain
 			tx := txs[stp.tx]
+			if stp.txb != nil {
+				tx = stp.txb
+			}
 			op := &verifC17Op{K: "req", Chain: chain, Tx: hex.EncodeToString(tx), T: now}
 			row.Ops = append(row.Ops, op)
 			before := verifC17Lens(row.Chains, queues)
@@ -375,22 +468,41 @@ func verifC17History(r *verifC17Rng, idx int, script []verifC17Step) *verifC17Ro
 					}
 				}
 			}
-		case 1: // the clock advances; the ticker fires at every multiple of its period on the way
+		case 1: // the clock advances; the purge ticker (normally) fires at every multiple of its period on the way
 			target := now + stp.secs
-			for nextTick <= target && !row.Aborted {
-				now = nextTick
-				op := &verifC17Op{K: "tick", T: now}
-				row.Ops = append(row.Ops, op)
-				if !h.tick(verifC17Base.Add(time.Duration(now) * time.Second)) {
-					op.Stall = true
-					mon(len(row.Ops)-1, "the dispatcher blocked: purge tick at %d s was not taken / not finished within 10 s", now)
+			for now < target && !row.Aborted {
+				to := target
+				if nextTick > now && nextTick <= target {
+					to = nextTick // stop exactly at the expected tick, so that the handler reads the tick's own time from the clock
+				}
+				clk.mock.Add(time.Duration(to-now) * time.Second)
+				now = to
+				if now == nextTick {
+					nextTick += row.Period
+				}
+				clk.settle()
+				clk.mu.Lock()
+				ticks := clk.ticks
+				clk.ticks = nil
+				stalled := clk.tickStall
+				clk.mu.Unlock()
+				for _, tt := range ticks {
+					op := &verifC17Op{K: "tick", T: int64(tt.Sub(verifC17Base) / time.Second)}
+					row.Ops = append(row.Ops, op)
+					if !h.sync() {
+						op.Stall = true
+						mon(len(row.Ops)-1, "the dispatcher blocked: purge tick at %d s was not finished within 10 s", op.T)
+						row.Aborted = true
+					}
+					op.Lens = verifC17Lens(row.Chains, queues)
+				}
+				if stalled && !row.Aborted {
+					op := &verifC17Op{K: "tick", T: now, Stall: true}
+					row.Ops = append(row.Ops, op)
+					mon(len(row.Ops)-1, "the dispatcher blocked: a purge tick produced by %d s was not taken within 10 s", now)
 					row.Aborted = true
 				}
-				op.Lens = verifC17Lens(row.Chains, queues)
-				nextTick += row.Period
 			}
-			now = target
-			clk.set(verifC17Base.Add(time.Duration(now) * time.Second))
 		default: // a watcher takes one request from its queue
 			qi := stp.qi
 			op := &verifC17Op{K: "drain", Chain: uint32(row.Chains[qi]), T: now}
@@ -501,22 +613,48 @@ func TestVerifC17(t *testing.T) {
 	enc := json.NewEncoder(w)
 	seed, _ := strconv.ParseUint(os.Getenv("VERIF_SEED"), 10, 64)
 	thorough := os.Getenv("VERIF_TIER") == "thorough"
-	r := &verifC17Rng{s: seed ^ 0xC17}
 	n := 400
 	if thorough {
 		n = 4000
 	}
-	stalls := 0
-	for idx := 0; idx < n && stalls < 3; idx++ {
-		var script []verifC17Step
-		if idx < len(verifC17Scripts) {
-			script = verifC17Scripts[idx]
+	// histories are independent (own clock, own dispatcher, own generator state derived from the seed and the index): run them on
+	// several workers, emit in index order
+	rows := make([]*verifC17Row, n)
+	var stalls int64
+	var wg sync.WaitGroup
+	next := int64(-1)
+	for wk := 0; wk < 8; wk++ {
+		wg.Add(1)
+		go func() {
+			defer wg.Done()
+			for atomic.LoadInt64(&stalls) < 3 {
+				idx := int(atomic.AddInt64(&next, 1))
+				if idx >= n {
+					return
+				}
+				var script []verifC17Step
+				if idx < len(verifC17Scripts) {
+					script = verifC17Scripts[idx]
+				} else if idx == len(verifC17Scripts) {
+					script = verifC17SteadyTraffic()
+				} else if idx == len(verifC17Scripts)+1 {
+					script = verifC17ManyDistinct(map[bool]int{false: 1500, true: 9000}[thorough])
+				}
+				r := &verifC17Rng{s: (seed ^ 0xC17) + uint64(idx)*0x9E3779B97F4A7C15}
+				r.next()
+				row := verifC17History(r, idx, script)
+				if row.Aborted {
+					atomic.AddInt64(&stalls, 1)
+				}
+				rows[idx] = row
+			}
+		}()
+	}
+	wg.Wait()
+	for _, row := range rows {
+		if row != nil {
+			enc.Encode(row)
 		}
-		row := verifC17History(r, idx, script)
-		if row.Aborted {
-			stalls++
-		}
-		enc.Encode(row)
 	}
 	for i, c := range []int{0, 1, 2, 3, common.ObsvReqChannelSize} {
 		enc.Encode(verifC17Post(i, c, false))
